@@ -41,7 +41,7 @@ Verdict(rec) ==
              ELSE IF conforms THEN "ok" ELSE "enc-bytes"
       DecV(d) ==
         IF ~claimed \/ spec.st = "err" \/ res.st \notin {"ok", "null"} THEN "noclaim"
-        ELSE LET exp == ConvOut(T, cv, d.K) IN
+        ELSE LET exp == ConvOutTop(T, cv, d.K) IN
              IF IsErr(exp) THEN "noclaim"
              ELSE IF d.st = "ok" THEN (IF Canon(T, d.gv) = Canon(T, exp) THEN "ok" ELSE "rt-value")
              ELSE IF d.st = "err" THEN (IF OutMayErr(T, cv, d.K) THEN "ok" ELSE "rt-error")
@@ -50,7 +50,7 @@ Verdict(rec) ==
       bad == enc \notin {"ok", "unclaimed"} \/ \E i \in 1 .. Len(decs) : decs[i] \notin {"ok", "noclaim"}
   IN [n |-> rec.n, enc |-> enc, decs |-> decs, conforms |-> claimed /\ spec.st # "err" /\ conforms,
       spec |-> IF bad THEN spec ELSE RErr,
-      exps |-> IF bad /\ claimed THEN [i \in 1 .. Len(rec.decs) |-> ConvOut(T, cv, rec.decs[i].K)] ELSE <<>>]
+      exps |-> IF bad /\ claimed THEN [i \in 1 .. Len(rec.decs) |-> ConvOutTop(T, cv, rec.decs[i].K)] ELSE <<>>]
 
 Report == l <= Len(Log) => PrintT(<<"VEC", ToJson(Verdict(Log[l]))>>)
 =============================================================================
